@@ -55,8 +55,8 @@ PROPS = {
         'explanation': 'tag tables and the wrapping discipline of replace_string',
     },
     'C20': {
-        'verus': ['U20c'],
-        'kani': ['U20a'],
+        'verus': ['U20c', 'U07c'],
+        'kani': ['U20a', 'U07b'],
         'technique': 'Kani/CBMC over every char for is_highlighted/highlight/unhighlight on the real crate + Verus frame postcondition (preference restored on every exit path) on the real body of get_navigation_node_from_braille_position',
         'level_text': 'complete proof of the dots-7-8 highlight algebra for every char (round trip, recognition, identity outside the braille block, validity of from_u32_unchecked) and unbounded proof that the cursor-routing query restores BrailleNavHighlight on every Ok and Err path of its own body',
         'level_note': 'assumed: find_navigation_node (recursive re-brailling) does not touch preferences, brackets the target and returns nodes with ids; set_preference of a declared string preference succeeds; the propagated error path of find_navigation_node itself is exempted (suspected leak, not reproducible through the API); byte/char-boundary arithmetic of highlight_braille_chars is the subject of unit U20b',
@@ -71,5 +71,14 @@ PROPS = {
         'level_note': 'assumed: sxd_document facade (append_child/children/remove_from_parent), children of a row are elements, + and - (and the two times operators) share a priority in operator-info.in, pointer identity of static dictionary entries; canonicalize_mrows_in_mrow itself (implied-operator choice, fence matching, shift_stack) is DOM code and not covered, nor is the uniqueness-of-parse claim',
         'not_covered': ['canonicalize_mrows_in_mrow, shift_stack, determine_vertical_bar_op, find_operator (DOM + dictionary lookup)', 'chemistry re-parse (chemistry.rs)', 'uniqueness of the parse for plain rows'],
         'explanation': 'precedence comparison and stack discipline of the row parser',
+    },
+    'C07': {
+        'verus': ['U07c'],
+        'kani': ['U20a', 'U07b'],
+        'technique': 'Kani/CBMC over every char for the three places that add or remove the dots-7-8 highlight (highlight, unhighlight, add_dots_to_braille_char) on the real crate + Verus postcondition on the real guard of highlight_braille_string (style Off or empty input returns the braille unchanged)',
+        'level_text': 'complete proof, for every char, that highlighting maps braille cells to braille cells (exactly dots 7-8 added/removed, valid scalar values) and never turns a passed-through char into a cell or the reverse, and unbounded proof that with highlighting Off the braille string is returned untouched',
+        'level_note': 'not decided: that rule files emit only letters of the indicator alphabet, the indicator tables vs REPLACE_INDICATORS classes (surveyed by hand: in sync for Nemeth; the other codes have a range typo `.-—` in the class that makes a table/class contract meaningless), space trimming and all regex clean-up chains, non-emptiness',
+        'not_covered': ['*_INDICATOR_REPLACEMENTS tables against the REPLACE_INDICATORS character classes (regex)', 'nemeth_cleanup/ueb_cleanup/... regex chains', 'rule files and Unicode tables emit only indicator letters and cells', 'text codes LaTeX/ASCIIMath'],
+        'explanation': 'highlight dots never leak or corrupt the alphabet; Off means untouched',
     },
 }
